@@ -14,6 +14,7 @@
 import AdaptixModel.Protocol
 import AdaptixModel.Conv.Convert
 import AdaptixModel.Conv.Facade
+import AdaptixModel.Conv.Generic
 
 namespace Adaptix.Ops.C13
 open Lean Adaptix.Protocol Adaptix.Conv13
@@ -46,6 +47,50 @@ def optField (j : Json) (k : String) : Option Json :=
   | .ok .null => none
   | .ok v => some v
   | .error _ => none
+
+/-- a field annotation of a generic class: `{"t":"var","i":k}` is the k-th declared type variable,
+    `{"t":"model","cls":c,"args":[…]}` a subscribed generic class; everything without "args" /
+    variables below it is a closed type -/
+partial def decHint (j : Json) : Except String Hint := do
+  match ← fieldStr j "t" with
+  | "var" => return .var (← fieldNat j "i")
+  | "model" =>
+    match optField j "args" with
+    | some (.arr as) => return (← as.toList.mapM decHint).foldl Hint.app (.cls (← fieldNat j "cls"))
+    | _ => return .ty (← decTy j)
+  | "opt" => return .opt (← decHint (← field j "a"))
+  | "iter" => return .iter (← decIterOrigin (← fieldStr j "o")) (← decHint (← field j "a"))
+  | "dict" => return .dict (← decHint (← field j "k")) (← decHint (← field j "v"))
+  | _ => return .ty (← decTy j)
+
+/-- Field types of a shape.  A shape of a generic class carries "tvars" (number of declared
+    variables), "targs" (the closed arguments of its instantiation) and, on the fields declared
+    through type variables, "hint": the type of such a field is **computed here** by the model of
+    `GenericResolver` (`resolveFields`) and named through the instantiation table. -/
+def resolveShapeTypes (tbl : InstTable) (e : Json) (fields : List Json) : Except String (List (Option Ty)) := do
+  match optField e "tvars" with
+  | none =>
+    if fields.any (fun f => (optField f "hint").isSome) then throw "a hint in a shape without type variables"
+    return fields.map fun _ => none
+  | some n =>
+    let n ← asNat n
+    let args ← (← fieldArr e "targs").mapM fun a => do return Hint.ty (← decTy a)
+    let hinted ← fields.filterMapM fun f => do
+      match optField f "hint" with
+      | none => return none
+      | some h => return some (← fieldStr f "id", ← decHint h)
+    let resolved := resolveFields { declared := List.range n, hints := hinted } args
+    fields.mapM fun f => do
+      match optField f "hint" with
+      | none => return none
+      | some _ =>
+        let id ← fieldStr f "id"
+        match resolved.lookup id with
+        | none => throw s!"field {id}: not resolved"
+        | some h =>
+          match h.toTy tbl with
+          | some t => return some t
+          | none => throw s!"field {id}: the resolved hint names no type of the class table"
 
 partial def decVal (j : Json) : Except String Val := do
   let pairs (k : String) : Except String (List (String × Val)) := do
@@ -149,11 +194,19 @@ def decOptVal (j : Json) (k : String) : Except String (Option Val) :=
   | none => pure none
   | some v => do return some (← decVal v)
 
+/-- the type of a field; a field declared through type variables ("hint") has none yet: it is
+    filled in by `resolveShapeTypes` -/
+def decFieldTy (j : Json) : Except String Ty :=
+  match optField j "hint", optField j "ty" with
+  | some _, _ => pure (.leaf 0)
+  | none, some t => decTy t
+  | none, none => throw "missing field ty"
+
 def decOutField (j : Json) : Except String OutField := do
-  return { id := ← fieldStr j "id", ty := ← decTy (← field j "ty"), acc := ← decAccessor (← field j "acc") }
+  return { id := ← fieldStr j "id", ty := ← decFieldTy j, acc := ← decAccessor (← field j "acc") }
 
 def decInField (j : Json) : Except String InField := do
-  return { id := ← fieldStr j "id", ty := ← decTy (← field j "ty"), required := ← fieldBool j "required",
+  return { id := ← fieldStr j "id", ty := ← decFieldTy j, required := ← fieldBool j "required",
            default := ← decOptVal j "default" }
 
 def decParam (j : Json) : Except String Param := do
@@ -166,11 +219,26 @@ structure WorldJ where
   sub : List (Ty × Ty)
 
 def decWorld (j : Json) : Except String WorldJ := do
+  -- instantiations of generic classes: [class, [argument types], type naming the instantiation]
+  let tbl : InstTable ← match optField j "insts" with
+    | none => pure []
+    | some v => (← asArr v).mapM fun e => do
+      match ← asArr e with
+      | [c, as, t] => return ((← asNat c, ← (← asArr as).mapM decTy), ← decTy t)
+      | _ => throw "bad instantiation"
   let outs ← (← fieldArr j "out").mapM fun e => do
-    return (← decTy (← field e "ty"), ({ fields := ← (← fieldArr e "fields").mapM decOutField } : OutShape))
+    let fj ← fieldArr e "fields"
+    let fs ← fj.mapM decOutField
+    let tys ← resolveShapeTypes tbl e fj
+    let fs := (fs.zip tys).map fun (f, t) => match t with | some t => { f with ty := t } | none => f
+    return (← decTy (← field e "ty"), ({ fields := fs } : OutShape))
   let ins ← (← fieldArr j "in").mapM fun e => do
+    let fj ← fieldArr e "fields"
+    let fs ← fj.mapM decInField
+    let tys ← resolveShapeTypes tbl e fj
+    let fs := (fs.zip tys).map fun (f, t) => match t with | some t => { f with ty := t } | none => f
     return (← decTy (← field e "ty"),
-      ({ cls := ← fieldNat e "cls", fields := ← (← fieldArr e "fields").mapM decInField,
+      ({ cls := ← fieldNat e "cls", fields := fs,
          params := ← (← fieldArr e "params").mapM decParam } : InShape))
   let sub ← (← fieldArr j "sub").mapM fun e => do
     match ← asArr e with
